@@ -19,3 +19,4 @@ def rules(ctx):
     S.c02_r4_who_frees(ctx)
     S.c06_r1_freed_merged(ctx)
     S.compaction_progress_rules(ctx)
+    S.state_writer_rules(ctx)
